@@ -27,7 +27,8 @@ _lab = _L.LABS[%d]
 _lab.remote_gateway = channel.gateway
 _lab.control_remote = channel
 _lab.parked_in.set()
-_lab.unpark.wait(60)
+while not _lab.unpark.wait(60):   # (a lab may be in use for much longer than a minute in the thorough tier)
+    pass
 """
 
 EXEC_ENDPOINT = """
